@@ -1373,3 +1373,121 @@ C20_EV_INIT = dict(
             ("chain_ids must have one entry per theta", 1)],
 )
 ALL += [C20_EV_INIT]
+
+# ---- C08: models/sparse_combo.py LegacySparseDrugComboImpl, the Gibbs blocks (vocabulary: end of Model/Gibbs.v) ----
+# `self` is split as the model splits it: g : cfg (options, sizes, hyper-parameters), d : data (self.y, self.cline, self.dd1,
+# self.dd2 and the index dicts _update derives from them), and the sampler state self : st (cfg["fields"]).  A method denotes a
+# program in the free monad gprog over the model's draws: every np.random.normal / np.random.gamma / sample_mvn_from_precision
+# call is a GDraw node carrying the call's arguments, and the method goes on with the drawn value.
+# Trusted per entry: one attribute read / numpy operator / numpy call each.  WHICH index list a block reads, what enters a
+# residual, the prior-only branch, a draw's arguments, where the drawn value is stored, the cache update and the order of all
+# of these come from the translation.
+_QV, _QM, _NV, _ZV = "list qnum", "list list qnum", "list nat", "list Z"
+_C08 = dict(
+    file="src/batchie/models/sparse_combo.py", cls="LegacySparseDrugComboImpl", out="SrcGibbs.v", imports="Lib.Num Model.Gibbs",
+    overload=True,
+    monad=dict(type="gprog", bind="dop", ok="GRet", fold="prog_fold", unwrap="gprog_has_no_unwrap", bind_quote=""),
+    coerce=[("Z", "qnum", "qofZ {x}")],                    # a Python int where a float is needed is that float
+    float_consts={"0.0": ("q0", "qnum"), "1.0": ("q1", "qnum"), "0.5": ("half", "qnum"),
+                  "0.001": ("jitter", "qnum"), "1000000.0": ("prec_hi", "qnum")},
+    fields={f: ("st", t, f + " {obj}", "set_" + f + " {obj} {val}") for f, t in [
+        ("W", _QM), ("W0", _QV), ("V2", _QM), ("V1", _QM), ("V0", _QV), ("alpha", "qnum"), ("prec", "qnum"), ("tau", _QV),
+        ("tau0", "qnum"), ("phi2", _QM), ("phi1", _QM), ("phi0", _QV), ("eta2", _QV), ("eta1", _QV), ("eta0", "qnum"),
+        ("gam", _QV), ("Mu", _QV)]},
+)
+_C08_SELF = [      # attributes of self that the sampler never writes: sizes, hyper-parameters, the observations
+    ("self.n_clines", "Z.of_nat (c_ncl g)", "Z"), ("self.n_drugdoses", "Z.of_nat (c_ndd g)", "Z"), ("self.D", "Z.of_nat (c_D g)", "Z"),
+    ("self.a0", "c_a0 g", "qnum"), ("self.b0", "c_b0 g", "qnum"), ("self.y", "d_y d", _QV),
+    ("self.n_obs()", "!src_n_obs d", "Z"),                                                   # runs its translation
+    ("self.encode_obs()", "(d_y d, d_cl d, d_dd1 d, d_dd2 d)", "(list qnum * list Z * list Z * list Z)"),
+    # the index dicts: _update appends the observation number n to cline_idxs[cl], dd1_idxs[dd1], dd2_idxs[dd2]
+    ("self.cline_idxs[__k]", "positions {k} (d_cl d)", _NV, {"k": "Z"}),
+    ("self.dd1_idxs[__k]", "positions {k} (d_dd1 d)", _NV, {"k": "Z"}),
+    ("self.dd2_idxs[__k]", "positions {k} (d_dd2 d)", _NV, {"k": "Z"}),
+    ("np.array(__l, copy=False)", "{l}", _NV, {"l": _NV}), ("np.array(__l, copy=False, dtype=int)", "{l}", _NV, {"l": _NV}),
+]
+_Q2 = {"a": "qnum", "b": "qnum"}
+_C08_SCALAR = [    # Python / numpy float arithmetic as exact rational arithmetic; integer arithmetic
+    ("__a + __b", "({a} + {b})%Z", "Z", {"a": "Z", "b": "Z"}), ("__a - __b", "({a} - {b})%Z", "Z", {"a": "Z", "b": "Z"}),
+    ("__a * __b", "({a} * {b})%Z", "Z", {"a": "Z", "b": "Z"}),
+    ("__a + __b", "qadd {a} {b}", "qnum", _Q2), ("__a - __b", "qsub {a} {b}", "qnum", _Q2),
+    ("__a * __b", "qmul {a} {b}", "qnum", _Q2), ("__a / __b", "qdiv {a} {b}", "qnum", _Q2),
+]
+_C08_SQRT = [      # np.sqrt and the reciprocal of a square root stay symbolic (Model/Gibbs.v: ssqrt, isqrt)
+    ("np.sqrt(__x)", "Sqrt {x}", "ssqrt", {"x": "qnum"}),
+    ("1.0 / __r", "inv_sqrt {r}", "isqrt", {"r": "ssqrt"}),
+    ("np.clip(__x, __lo, __hi)", "np_clip_isq orc {x} {lo} {hi}", "qnum", {"x": "qnum", "lo": "isqrt", "hi": "qnum"}),
+]
+_C08_DRAWS = [
+    ("np.random.normal(__m, __s)", "!draw_normal {m} {s}", "qnum", {"m": "qnum", "s": "isqrt"}),
+    ("np.random.gamma(__a, __s)", "!draw_gamma {a} {s}", "qnum", {"a": "qnum", "s": "qnum"}),
+]
+_C08_VEC = [       # arrays of equal shape, array op scalar, reductions, integer-array indexing
+    ("__a - __b", "np_vsub {a} {b}", _QV, {"a": _QV, "b": _QV}),
+    ("__a + __b", "np_vadd {a} {b}", _QV, {"a": _QV, "b": _QV}),
+    ("__a + __x", "np_vadds {a} {x}", _QV, {"a": _QV, "x": "qnum"}),
+    ("np.square(__a)", "np_square {a}", _QV, {"a": _QV}), ("__a ** 2", "np_square {a}", _QV, {"a": _QV}),
+    ("__a.sum()", "qsum {a}", "qnum", {"a": _QV}), ("__a.mean()", "qmean {a}", "qnum", {"a": _QV}),
+    ("np.mean(__a)", "qmean {a}", "qnum", {"a": _QV}),
+    ("len(__l)", "Z.of_nat (length {l})", "Z"),
+    ("__a[__i]", "np_get q0 {a} {i}", "qnum", {"a": _QV, "i": "Z"}),
+    ("__a[__i]", "np_gather q0 {a} {i}", _QV, {"a": _QV, "i": _NV}),
+    ("np.concatenate([__a, __b])", "{a} ++ {b}", _QV, {"a": _QV, "b": _QV}),
+    ("np.concatenate([__a, __b])", "{a} ++ {b}", _NV, {"a": _NV, "b": _NV}),
+]
+_STMETHOD = dict(_C08, pyparams=["self"], returns="st", implicit_return="{self}")
+_GDS = [("g", "cfg"), ("d", "data"), ("self", "st")]
+_GDOS = [("g", "cfg"), ("d", "data"), ("orc", "oracle"), ("self", "st")]
+
+C08_N_OBS = dict(_C08, func="n_obs", name="src_n_obs", pyparams=["self"], params=[("d", "data")], returns="Z", vars={},
+                 prims=[("self.y", "d_y d", _QV), ("len(__l)", "Z.of_nat (length {l})", "Z")])
+
+# self.get(attr, ix): `arr` is the attribute's array (axis-0 entries of any type T, z = the zero of an entry's shape)
+C08_GET = dict(
+    _C08, func="get", name="src_get", pyparams=["self", "attr", "ix"],
+    params=[("T", "Type"), ("z", "T"), ("arr", "list T"), ("ix", _ZV)], returns="list T",
+    vars={"A": "list T", "controls": _NV},
+    prims=[("self.__getattribute__(attr)", "arr", "list T"),
+           ("__a[__i]", "np_take z {a} {i}", "list T", {"a": "list T", "i": _ZV}),      # integer fancy indexing
+           ("__a.copy()", "{a}", "list T", {"a": "list T"}),                            # a copy has the same value
+           ("__a == __v", "map (fun x => (x =? {v})%Z) {a}", "list bool", {"a": _ZV, "v": "Z"}),
+           ("np.where(__m)[0]", "np_where {m}", _NV, {"m": "list bool"}),
+           ("__a > __v", "map (fun i => (Z.of_nat i >? {v})%Z) {a}", "list bool", {"a": _NV, "v": "Z"}),
+           ("len(__l)", "Z.of_nat (length {l})", "Z")],
+    assign_effects=[("A[__c] = 0.0", "A'", "np_zero_at z {state} {c}")],
+)
+
+# mcmc_step: `run` is what a block method does to the state (ANY implementation; the linking theorems instantiate it)
+C08_MCMC_STEP = dict(
+    _STMETHOD, func="mcmc_step", name="src_mcmc_step",
+    params=[("run", "blk -> st -> gprog st"), ("num_mcmc_steps", "Z"), ("self", "st")], vars={},
+    attr_vars={"self.num_mcmc_steps": "num_mcmc_steps"},      # a counter nothing else reads
+    prims=[("__a + __b", "({a} + {b})%Z", "Z", {"a": "Z", "b": "Z"})],
+    effects=[("self._reconstruct_Mu(clip=False)", "self'", "!run BReconstruct {state}")] + [
+        ("self.%s()" % m, "self'", "!run %s {state}" % b) for m, b in [
+            ("_alpha_step", "BAlpha"), ("_W0_step", "BW0"), ("_V0_step", "BV0"), ("_W_step", "BW"), ("_V2_step", "BV2"),
+            ("_V1_step", "BV1"), ("_prec_W0_step", "BPrecW0"), ("_prec_V0_step", "BPrecV0"), ("_prec_obs_step", "BPrecObs"),
+            ("_prec_V2_step", "BPrecV2"), ("_prec_V1_step", "BPrecV1"), ("_prec_W_step", "BPrecW")]],
+)
+
+_Y_STAR = "y, *_ = self.encode_obs()\n"
+C08_ALPHA = dict(
+    _STMETHOD, func="_alpha_step", name="src_alpha_step",
+    params=[("g", "cfg"), ("d", "data"), ("fake_intercept", "bool"), ("self", "st")],
+    vars={"old_value": "qnum", "y": _QV, "mean": "qnum", "stddev": "isqrt"},
+    prims=[("self.fake_intercept", "fake_intercept", "bool")] + _C08_SELF + _C08_SCALAR + _C08_SQRT[:2] + _C08_DRAWS + _C08_VEC,
+    stmt_prims=[(_Y_STAR, "y", "d_y d", _QV)],
+)
+C08_PREC_OBS = dict(
+    _STMETHOD, func="_prec_obs_step", name="src_prec_obs_step", params=_GDOS,
+    vars={"sse": "qnum", "an": "qnum", "bn": "qnum", "C": "isqrt", "last_rmse": "ssqrt"},
+    attr_vars={"self.last_rmse": "last_rmse"},                # a diagnostic nothing else reads
+    prims=_C08_SELF + _C08_SCALAR + _C08_SQRT + _C08_DRAWS + _C08_VEC,
+)
+C08_PREC_W0 = dict(
+    _STMETHOD, func="_prec_W0_step", name="src_prec_W0_step", params=_GDOS,
+    vars={"an": "qnum", "bn": "qnum", "C": "isqrt"},
+    prims=_C08_SELF + _C08_SCALAR + _C08_SQRT + _C08_DRAWS + _C08_VEC,
+)
+C08_ALL = [C08_N_OBS, C08_GET, C08_MCMC_STEP, C08_ALPHA, C08_PREC_OBS, C08_PREC_W0]
+ALL += C08_ALL
